@@ -421,7 +421,12 @@ class ProdParser:
         """
         if isinstance(text, str):
             # DEFAULT, to tokenize strip space
-            return tokenizer.tokenize(text.strip())
+            # CSS white space only (and an escaped blank at the end stays)
+            stripped = text.strip(' \t\r\n\f')
+            backslashes = len(stripped) - len(stripped.rstrip('\\'))
+            if backslashes % 2 and len(text.lstrip(' \t\r\n\f')) > len(stripped):
+                stripped += text.lstrip(' \t\r\n\f')[len(stripped)]
+            return tokenizer.tokenize(stripped)
 
         elif isinstance(text, types.GeneratorType):
             # DEFAULT, already tokenized, should be generator
